@@ -65,8 +65,9 @@ def handle (cmd : String) (args : List String) : String :=
     | some net, some cut =>
       match order? net.n o with
       | some order =>
-        joinWith ";" ((allShortestDistances net order cut []).map
-          (fun p => s!"{p.1.1},{p.1.2},{showRat p.2}"))
+        let tb := allShortestDistances net order cut Table.empty
+        joinWith ";" ((List.range net.n).flatMap (fun s => (List.range net.n).filterMap (fun v =>
+          (tb (s, v)).map (fun d => s!"{s},{v},{showRat d}"))))
       | none => "bad-request"
     | _, _ => "bad-request"
   | "prep", [n, o, es, c1, c2] =>
